@@ -11,3 +11,16 @@ INFO = {}
 def info(pid, explanation, unverified, assumptions=(), level='other'):
     INFO[pid] = {'level': level, 'explanation': explanation, 'unverified': list(unverified),
                  'assumptions': [A_INT, A_REAL, A_ENGINE, A_PRIMS] + list(assumptions)}
+
+info('C20',
+     'P: EventHandler (connect, disconnect, copy, _prepare_emit, emit, emit_until_result) and DictCache over the in-memory '
+     'Storage (__setitem__, __getitem__, get, __delitem__, __contains__, set_short_term_keys, preload, create_subcache) are '
+     'verified from the real source against an abstract view plus representation invariant, from an arbitrary state '
+     'satisfying the invariant, so the sequential specification holds for every finite history by induction. '
+     'B (bounded, not proof): the real CacheFile with every storage class, with and without the worker thread, and the real '
+     'EventHandler on random histories against dict/list models, every call under a deadline.',
+     ['thread interleavings inside a task and the memory model: this family is silent on concurrency; ThreadedStorage is '
+      'exercised with the real thread only boundedly (schedules are whatever the OS produced)',
+      'PickleStorage/Hdf5Storage file mapping: bounded only'],
+     ['sorted() returns a stable permutation (assumed contract)', 'dict.keys() enumerates exactly the key set (assumed)',
+      'callbacks are opaque: calling one is logged in a ghost call log and returns apply(callback, extra_kwargs)'])
